@@ -689,3 +689,29 @@ def enclosing_conditions(fx, body, bb):
                     out.append(("F:" + r[4:-1]) if r.startswith("Not(") else ("T:" + r))
         cur = par
     return out
+
+
+def true_only_if_exists(fx, body, src_rx, test_rx):
+    """`body` (a bool function) returns true only when SOME element of <src> passes the test: either `src.any(test)` is the only
+    non-false result, or every `true` written to the return place sits on the T edge of test(<loop element of src>) inside a loop
+    over src.  test_rx: callee of the test (regex)."""
+    for c in body.calls_to(r"Iterator>?::any$"):
+        if re.search(src_rx, expr(body, c.args[0])) and (any(re.search(test_rx, q) for q in c.fnitems) or any(cb.calls_to(test_rx) for cb in closure_bodies(fx, c))):
+            truthy = [d for d in body.def_sites(0) if not (isinstance(d[3], dict) and d[3]["k"] == "use" and op_int(d[3]["op"]) == 0)]
+            if all((not isinstance(d[3], dict)) and d[3] is c for d in truthy):
+                return True
+    for c in body.calls_to(r"Iterator>?::next$"):
+        it = expr(body, c.args[0])
+        m = re.fullmatch(r"into_iter\((.*)\)", it)
+        if not (m and re.search(src_rx, m.group(1))):
+            continue
+        elem = "next(%s)#Some.0" % it
+        tests = [t for t in body.calls_to(test_rx) if expr(body, t.args[0]) == elem]
+        if not tests:
+            continue
+        tnames = set("T:" + expr(body, t.dest) for t in tests)
+        trues = [d for d in body.def_sites(0) if isinstance(d[3], dict) and d[3]["k"] == "use" and op_int(d[3]["op"]) == 1]
+        others = [d for d in body.def_sites(0) if not (isinstance(d[3], dict) and d[3]["k"] == "use" and op_int(d[3]["op"]) in (0, 1))]
+        if trues and not others and all(tnames & set(guard_strs(body, d[0])) for d in trues):
+            return True
+    return False
